@@ -458,7 +458,86 @@ func TestVF_C02(t *testing.T) {
 		}
 	}
 	cases = append(cases, vfBigResumeCases()...)
+	cases = append(cases, vfAckFlipCases()...)
 	vfRunCases(t, "C02", cases, 3, 200*time.Second)
+}
+
+// vfAckFlipCases: every single-bit flip (bits 0-5) of every payload character of the prefix-hash ack of a small
+// resume (one comparison block): whatever the damaged line decodes to, a side may only report success for
+// a destination identical to the source.
+func vfAckFlipCases() []vfCase {
+	var cases []vfCase
+	scs := vfFaultScenarios()
+	for _, sc := range scs {
+		if sc.Resume == 0 {
+			continue
+		}
+		if !vfThorough() && sc.Name != "down-p4-resume" && sc.Name != "up-p3-resume-bin" {
+			continue
+		}
+		sc := sc
+		for pos := 0; pos < 72; pos += 6 {
+			pos := pos
+			cases = append(cases, vfCase{ID: fmt.Sprintf("ackflip-%s-%d", sc.Name, pos), Run: func(c *vfCtx) {
+				tried, hit := 0, 0
+				for p := pos; p < pos+6; p++ {
+					for bit := 0; bit < 6; bit++ {
+						p, bit := p, bit
+						var mu sync.Mutex
+						applied := false
+						detail := ""
+						setup := func(s *vfSession) {
+							w := s.cliW() // written by the receiver
+							if sc.Cfg.Dir == "up" {
+								w = s.srvW()
+							}
+							w.SetMutator(func(index int, t string, line []byte) []byte {
+								if t != "SUCC" || len(line) < 8 {
+									return line
+								}
+								body := bytes.TrimSuffix(bytes.TrimSuffix(line, []byte("\n")), []byte("!"))
+								dec, err := decodeString(string(body[6:]))
+								if err != nil || !bytes.Contains(dec, []byte("\"match\"")) {
+									return line
+								}
+								mu.Lock()
+								defer mu.Unlock()
+								if applied || 6+p >= len(body) {
+									return line
+								}
+								applied = true
+								out := append([]byte(nil), line...)
+								out[6+p] ^= 1 << uint(bit)
+								detail = fmt.Sprintf("bit %d of payload character %d of the hash ack %q (%s) flipped", bit, p, vfHead(body, 70), dec)
+								return out
+							})
+						}
+						res := vfRunScenario(c, sc, "fault", setup, 40*time.Second)
+						if res == nil || !res.finished {
+							return
+						}
+						tried++
+						mu.Lock()
+						a, d := applied, detail
+						mu.Unlock()
+						if !a {
+							continue
+						}
+						hit++
+						if !vfNoSilentCorruption(c, sc, res, "scenario "+sc.Name+": "+d) {
+							c.Replay(map[string]interface{}{"scenario": sc.Name, "position": p, "bit": bit})
+							return
+						}
+					}
+				}
+				c.Obs("hash_ack_bit_flips", int64(hit))
+				if hit > 0 {
+					c.Nontrivial(fmt.Sprintf("ackflip %s %d..%d (%d flips)", sc.Name, pos, pos+5, hit))
+				}
+			}})
+		}
+	}
+	return cases
 }
 
 // vfBigResumeCases: a resume whose prefix comparison spans several 10 MiB blocks - the first block of the
